@@ -66,7 +66,7 @@ def parseOp (n : Nat) (s : String) : Option Op :=
 
 def maxNum (t : Tree) : Nat := ((List.range (t.parents.length + 1)).map (num t)).foldl max 0
 
-def sortedBlocks (t : Tree) (p : Blk → Bool) : List Blk := (List.range (t.parents.length + 1)).filter p
+def sortedBlocks (t : Tree) (p : Nat → Bool) : List Nat := (List.range (t.parents.length + 1)).filter p
 
 def showOpt : Option Nat → String
   | some n => toString n
@@ -101,7 +101,7 @@ def privModel (s : St) : String :=
   s!"fc={joinWith "," (s.forced.map showForced)} sc={joinWith "," (showForest s.roots)}"
 
 /-- a header with two scheduled or two forced changes (no runtime emits it): tied to the model only -/
-def malformed (t : Tree) (b : Blk) : Bool :=
+def malformed (t : Tree) (b : Nat) : Bool :=
   let ds := t.anns.filter (·.blk = b)
   decide ((ds.filter (·.forced)).length > 1) || decide ((ds.filter (fun d => !d.forced)).length > 1)
 
